@@ -50,6 +50,22 @@ var c01 = newChk("C01", "roundtrip",
 		if !bytes.Equal(enc, encCopy) {
 			return obs.Failf("C01/decoder-wrote-to-its-input", "FromBytes leaves its input unchanged", "input changed at byte %d", firstDiff(enc, encCopy))
 		}
+		// second generation: the decoded packet encodes to the same bytes and decodes to the same packet again (a value
+		// the decoder itself produced — e.g. a nil slice for an empty option — must be as encodable as a hand-built one)
+		enc2 := q.ToBytes()
+		if !bytes.Equal(enc2, enc) {
+			return obs.Failf("C01/second-generation/encoding", "the decoded packet re-encodes to the same bytes", "differs at byte %d", firstDiff(enc2, enc))
+		}
+		// the same packet with its empty option values held as nil instead of empty slices is the same packet
+		pn := c.Lib()
+		for k, v := range pn.Options {
+			if len(v) == 0 {
+				pn.Options[k] = nil
+			}
+		}
+		if encN := pn.ToBytes(); !bytes.Equal(encN, enc) {
+			return obs.Failf("C01/nil-vs-empty", "an empty option value encodes the same whether it is nil or an empty slice", "differs at byte %d", firstDiff(encN, enc))
+		}
 		scribbleValue(q, 0xA5)
 		q2, err := dhcpv4.FromBytes(enc)
 		if err != nil {
